@@ -273,6 +273,23 @@ def model_array(answer):
 
 # ------------------------------------------------------------------ independent semantics
 
+ROTATIONS = ("Rx", "Ry", "Rz", "CU1", "CRz", "CRx")
+
+
+def textbook_rotation(box):
+    """[input, output] matrix of a rotation gate with a numeric phase, from its class name and
+    phase only (qgen.std_rot_u is written out independently of discopy); None for other boxes."""
+    kind = type(box).__name__
+    if kind not in ROTATIONS or getattr(box, "is_dagger", False):
+        return None
+    try:
+        phase = float(box.phase)
+    except (TypeError, ValueError, AttributeError):
+        return None
+    import qgen
+    return qgen.std_rot_u(kind, phase).T.copy()
+
+
 class Sem:
     """Density-operator semantics with one pair of indices (ket side, bra side) per wire.
 
@@ -367,6 +384,10 @@ class Sem:
                 u = np.asarray(box.dagger().array, dtype=complex).reshape(dout + din)
                 u = np.conjugate(np.transpose(
                     u, list(range(nout, nout + nin)) + list(range(nout))))
+            elif textbook_rotation(box) is not None:
+                # rotations: the textbook matrix from the class name and the phase, computed
+                # here (not `box.array`, not anything the library may have stored for the box)
+                u = textbook_rotation(box).reshape(din + dout)
             else:
                 u = np.asarray(box.array, dtype=complex).reshape(din + dout)
             if is_classical_gate(box):                   # also a weight: no wire, any value
